@@ -379,6 +379,17 @@ impl RuleGen {
             }
             _ => {}
         }
+        // combined effects: a rule that answers with a status and also rewrites headers or the body (error pages)
+        if rng.chance(1, 5) && rule["body_filters"].is_null() {
+            rule["body_filters"] = json!([{"action": rng.pick_str(&["append_child", "prepend_child"]), "value": format!("[[+{id}]]"), "inner_value": Value::Null, "element_tree": ["html", "body"], "css_selector": Value::Null, "id": Value::Null, "target_hash": Value::Null}]);
+        }
+        if rng.chance(1, 5) && rule["header_filters"].is_null() {
+            rule["header_filters"] = json!([{"action": rng.pick_str(&["add", "override", "remove", "replace", "default"]), "header": rng.pick_str(&["X-H", "x-h", "Cache-Control"]), "value": format!("w-{id}"), "id": Value::Null, "target_hash": Value::Null}]);
+        }
+        if rng.chance(1, 8) && rule["status_code"].is_null() {
+            // a status rewrite without target (410 gone, 200 soft error page)
+            rule["status_code"] = json!(*rng.pick(&[410u16, 404, 200, 503]));
+        }
         if rng.chance(1, 12) {
             rule["stop"] = json!(true);
         }
@@ -389,7 +400,7 @@ impl RuleGen {
             rule["log_override"] = json!(rng.coin());
         }
         if rng.chance(1, 6) {
-            rule["source"]["response_status_codes"] = json!([*rng.pick(&[200u16, 404, 500])]);
+            rule["source"]["response_status_codes"] = json!([*rng.pick(&[200u16, 404, 500, 410])]);
             if rng.chance(1, 3) {
                 rule["source"]["exclude_response_status_codes"] = json!(true);
             }
